@@ -336,6 +336,9 @@ GEOMS_FULL = tuple((px, py, s) for px in range(3) for py in range(3) for s in (1
 GEOMS_PREFIX = ((1, 1, 1), (0, 0, 3), (2, 2, 1))
 KINDS_PREFIX = ("autoshape", "subgroup-new", "subgroup-of")
 KINDS_PREFIX4 = ("autoshape", "subgroup-new")
+# (left, top, width, height) assigned through GroupShape.left/top/width/height; never equal to a member
+# bounding box (those are multiples of 100): V0 stretches the group over its members, V1 shrinks/moves it
+RESIZES = ((50, 70, 900, 700), (150, 250, 50, 30))
 SHAPE_TAGS = (P + "sp", P + "pic", P + "cxnSp", P + "graphicFrame", P + "grpSp")
 
 _IMG = None
@@ -384,25 +387,48 @@ def _m_groups(model, path=()):
 
 
 def _m_apply(model, op):
-    """Apply op to the model; return the path of the group that directly received a member."""
+    """Apply op to the model; return the path of the group that directly received a member (for a
+    resize: the path of the resized group).
+
+    A resize through the public setters gives the group its OWN position/size ("own"); an addition into a
+    group re-establishes "position/size = bounding box of the members" for that group and for every
+    ancestor, so "own" is cleared along the whole path."""
     kind, px, py, s, path = op
     g = _m_group(model, path)
+    if kind == "resize":
+        g["own"] = RESIZES[px]
+        return tuple(path)
+    for k in range(len(path) + 1):
+        _m_group(model, path[:k]).pop("own", None)
     box = (px * U, py * U, s * U, s * U)
     if kind.startswith("subgroup"):
-        g["children"].append({"children": [{"box": box}]})
+        g["children"].append({"k": kind, "children": [{"k": "autoshape", "box": box}]})
         return tuple(path) + (len(g["children"]) - 1,)
-    g["children"].append({"box": box})
+    g["children"].append({"k": kind, "box": box})
     return tuple(path)
 
 
-def _m_bbox(node):
-    """Bounding box (x, y, cx, cy) of a model node; None for an empty group."""
-    if "box" in node:
-        return node["box"]
+def _m_child_bbox(node):
+    """Bounding box of a group node's members (sub-groups count with their own box if resized)."""
     boxes = [b for b in (_m_bbox(c) for c in node["children"]) if b is not None]
     if not boxes:
         return None
     return _bbox(boxes)
+
+
+def _m_bbox(node):
+    """Position/size (x, y, cx, cy) of a model node; None for an empty group."""
+    if "box" in node:
+        return node["box"]
+    if "own" in node:
+        return node["own"]
+    return _m_child_bbox(node)
+
+
+def _m_canon(node):
+    if "box" in node:
+        return (node["k"], node["box"])
+    return (node.get("k"), node.get("own"), tuple(_m_canon(c) for c in node["children"]))
 
 
 def _bbox(boxes):
@@ -435,6 +461,9 @@ def _g_apply(slide, top, op):
     g = top
     for i in path:
         g = g.shapes[i]
+    if kind == "resize":
+        g.left, g.top, g.width, g.height = RESIZES[px]
+        return
     x, y, w = px * U, py * U, s * U
     sh = g.shapes
     if kind == "autoshape":
@@ -490,19 +519,39 @@ def _g_obs(el):
     return {"box": _xfrm_box(el.find(P + "spPr/" + A + "xfrm")), "tag": etree.QName(el).localname}
 
 
-def _g_check(top, bare, model, op, modified, prev_bad=frozenset()):
-    """All group invariants after `op`. Returns (list of (signature, message), paths of all groups that
-    are now inconsistent with their members).
+def _g_inconsistent(obs, path=()):
+    """Paths of all non-empty groups of an observed tree whose off/ext or chOff/chExt differ from the
+    bounding box of their members."""
+    out = set()
+    if "children" not in obs:
+        return out
+    kids = obs["children"]
+    boxes = [k["box"] for k in kids if not ("children" in k and not k["children"])]
+    if boxes and all(b is not None for b in boxes):
+        exp = _bbox(boxes)
+        if obs["box"] != exp or obs["chbox"] != exp:
+            out.add(tuple(path))
+    for i, k in enumerate(kids):
+        out |= _g_inconsistent(k, tuple(path) + (i,))
+    return out
 
-    A group that was ALREADY inconsistent before this step (path in `prev_bad`) is not reported again:
-    its breakage was reported at the step that broke it, and re-reporting it under the kind of every later
-    operation would give one defect many signatures. (No report at any step still implies the invariant
-    at every step, by induction from the consistent initial state.)"""
+
+def _g_check(top, bare, model, op, modified, prev_bad=frozenset(), after_resize=False):
+    """All group invariants after the ADDITION `op`. Returns (list of (signature, message), paths of all
+    groups that are now inconsistent with their members).
+
+    Obligation: the group that received the member and every ancestor of it (the "path") must equal the
+    bounding box of their members after the addition, whatever their state was before (in particular if
+    one of them had been moved/resized through the public setters, or was stale). A group OFF that path
+    carries no new obligation at this step: if it was already inconsistent before the step (path in
+    `prev_bad`: resized through the setters, or broken by an earlier, already reported step) it is not
+    reported again; if it was consistent before and is not now, it is reported."""
     kind = op[0]
     obs = _g_obs(bare)
     out = []
     wrong = []   # (d, signature, message) of groups whose extents differ from their members' bbox
     bad_now = set()
+    sfx = "|after-resize" if after_resize else ""
 
     def depth_of(path):
         if tuple(modified[:len(path)]) == tuple(path):
@@ -530,15 +579,17 @@ def _g_check(top, bare, model, op, modified, prev_bad=frozenset()):
                 d = depth_of(path)
                 if o["box"] != exp or o["chbox"] != exp:
                     bad_now.add(tuple(path))
-                if tuple(path) in prev_bad:
+                if d == "off-path" and tuple(path) in prev_bad:
                     pass
                 elif o["box"] != exp:
-                    wrong.append((d, "C17|group-extents|member-kind=%s|depth=%s" % (kind, d),
-                                "after adding %s at %r to group %r: group %r has off/ext %r, bounding box of its "
-                                "%d members is %r" % (kind, tuple(op[1:4]), tuple(op[4]), path, o["box"],
-                                                      len(boxes), exp)))
+                    wrong.append((d, "C17|group-extents|member-kind=%s|depth=%s%s" % (kind, d, sfx),
+                                "after adding %s at %r to group %r%s: group %r has off/ext %r, bounding box of its "
+                                "%d members is %r" % (kind, tuple(op[1:4]), tuple(op[4]),
+                                                      " (a group on the path had been moved/resized through "
+                                                      "left/top/width/height)" if after_resize else "",
+                                                      path, o["box"], len(boxes), exp)))
                 elif o["chbox"] != exp:
-                    wrong.append((d, "C17|group-child-extents|member-kind=%s|depth=%s" % (kind, d),
+                    wrong.append((d, "C17|group-child-extents|member-kind=%s|depth=%s%s" % (kind, d, sfx),
                                 "after adding %s to group %r: group %r has chOff/chExt %r, bounding box of its "
                                 "members is %r" % (kind, tuple(op[4]), path, o["chbox"], exp)))
         for i, k in enumerate(kids):
@@ -584,10 +635,39 @@ def _g_check(top, bare, model, op, modified, prev_bad=frozenset()):
 def _g_step(part, slide, top, model, op, hist, prev_bad):
     """Apply op to implementation and model, check, count. Returns (bare tree or None, path of the
     group that received the member, paths of groups now inconsistent)."""
-    before = {p: _m_bbox(_m_group(model, p)) for p in _m_groups(model)}
-    modified = _m_apply(model, op)
     kind = op[0]
     replay = {"sys": "group", "ops": [[o[0], o[1], o[2], o[3], list(o[4])] for o in hist]}
+    if kind == "resize":
+        modified = _m_apply(model, op)
+        part.count("transitions")
+        part.count("group_resize_ops")
+        try:
+            _g_apply(slide, top, op)
+            bare = _bare(top.element)
+        except Exception as e:  # noqa
+            part.violation("C17|group-extents|raised|member-kind=resize|%s" % type(e).__name__,
+                           "left/top/width/height := %r on group %r raised %r" % (RESIZES[op[1]], tuple(op[4]), e),
+                           replay)
+            return None, modified, prev_bad
+        obs = _g_obs(bare)
+        o = obs
+        for i in modified:
+            o = o["children"][i]
+        # the setters are not part of C17: no verdict here, only the vacuity bookkeeping (the point of the
+        # operation is to reach states whose a:off/a:ext differ from a:chOff/a:chExt)
+        if o["box"] == RESIZES[op[1]] and o["chbox"] != o["box"]:
+            part.count("traces_validated_against_impl")
+            part.count("group_scaled_states_reached")
+        else:
+            part.count("group_resize_not_as_modelled")
+        part.outcome("group.resize", "v%d,depth=%d" % (op[1], len(modified)))
+        return bare, modified, _g_inconsistent(obs)
+
+    before = {p: _m_bbox(_m_group(model, p)) for p in _m_groups(model)}
+    path = tuple(op[4])
+    after_resize = any("own" in _m_group(model, path[:k]) for k in range(len(path) + 1))
+    child_before = _m_child_bbox(_m_group(model, path))
+    modified = _m_apply(model, op)
     part.count("transitions")
     try:
         _g_apply(slide, top, op)
@@ -600,8 +680,17 @@ def _g_step(part, slide, top, model, op, hist, prev_bad):
     changed = any(_m_bbox(_m_group(model, p)) != b for p, b in before.items())
     if changed:
         part.count("nontrivial_count")
-    part.outcome("group.add-" + kind, "bbox-%s,depth=%d" % ("changed" if changed else "same", len(modified)))
-    reports, bad_now = _g_check(top, bare, model, op, modified, prev_bad)
+    inside = _m_child_bbox(_m_group(model, path)) == child_before
+    if after_resize:
+        part.count("group_additions_after_resize")
+        if inside:
+            # the addition lies inside the members' bounding box of a group whose a:off/a:ext had been
+            # changed through the setters: child extents stay, position/size must snap back
+            part.count("group_additions_inside_bbox_after_resize")
+    part.outcome("group.add-" + kind, "bbox-%s,depth=%d%s" % (
+        "changed" if changed else "same", len(modified),
+        (",after-resize-" + ("inside" if inside else "growing")) if after_resize else ""))
+    reports, bad_now = _g_check(top, bare, model, op, modified, prev_bad, after_resize)
     for sig, msg in reports:
         part.violation(sig, msg, replay)
     return bare, modified, bad_now
@@ -614,13 +703,23 @@ def _g_ops(model, kinds, geoms):
                 yield (kind, px, py, s, path)
 
 
-def _g_prefixes(length, kinds, geoms):
-    """All histories of exactly `length` operations over the given alphabet (model-only)."""
+def _g_resize_ops(model):
+    """Resize operations: every non-empty group x every variant."""
+    for path in _m_groups(model):
+        if _m_group(model, path)["children"]:
+            for vi in range(len(RESIZES)):
+                yield ("resize", vi, 0, 0, path)
+
+
+def _g_prefixes(spec):
+    """All prefix histories for a spec = tuple of positions, each ("add", kinds, geoms) or ("resize",)
+    (model-only)."""
     out = [((), _m_new())]
-    for _ in range(length):
+    for pos in spec:
         nxt = []
         for hist, model in out:
-            for op in _g_ops(model, kinds, geoms):
+            ops = _g_resize_ops(model) if pos[0] == "resize" else _g_ops(model, pos[1], pos[2])
+            for op in ops:
                 m2 = copy.deepcopy(model)
                 _m_apply(m2, op)
                 nxt.append((hist + (op,), m2))
@@ -630,20 +729,31 @@ def _g_prefixes(length, kinds, geoms):
 
 def _g_expected_leaf_ops(prefix_sets):
     n = 0
-    for length, kinds, geoms in prefix_sets:
-        for _hist, model in _g_prefixes(length, kinds, geoms):
+    for spec in prefix_sets:
+        for _hist, model in _g_prefixes(spec):
             n += len(_m_groups(model)) * len(KINDS) * len(GEOMS_FULL)
     return n
 
 
 def _g_prefix_sets(thorough):
-    sets = [(0, KINDS, GEOMS_FULL), (1, KINDS, GEOMS_FULL)]
+    """Prefix specs; every prefix is then expanded by one operation of the FULL addition alphabet on
+    every group. A resize is only ever a prefix operation (the last operation is always an addition)."""
+    full = ("add", KINDS, GEOMS_FULL)
+    k3 = ("add", KINDS, GEOMS_PREFIX)
+    p3 = ("add", KINDS_PREFIX, GEOMS_PREFIX)
+    p4 = ("add", KINDS_PREFIX4, GEOMS_PREFIX)
+    rs = ("resize",)
+    sets = [(), (full,)]
     if thorough:
-        sets.append((2, KINDS, GEOMS_PREFIX))
-        sets.append((3, KINDS_PREFIX4, GEOMS_PREFIX))
+        sets += [(k3, k3), (p4, p4, p4), (full, rs), (p4, p4, rs), (p4, rs, p4)]
     else:
-        sets.append((2, KINDS_PREFIX, GEOMS_PREFIX))
+        sets += [(p3, p3), (k3, rs)]
     return sets
+
+
+def _g_spec_text(spec):
+    return [("resize x%d" % len(RESIZES)) if pos[0] == "resize" else "add %dk x %dg" % (len(pos[1]), len(pos[2]))
+            for pos in spec]
 
 
 def _g_clean_slide(slide, keep):
@@ -661,6 +771,7 @@ def _g_work(part, chunk):
         top = slide.shapes.add_group_shape()
         model = _m_new()
         part.add("states", ("grp", _g_canon(_bare(top.element))))
+        part.add("group_model_states", hash(_m_canon(model)))
         done = []
         ok = True
         bad = frozenset()
@@ -672,6 +783,7 @@ def _g_work(part, chunk):
                 ok = False
                 break
             part.add("states", ("grp", _g_canon(bare)))
+            part.add("group_model_states", hash(_m_canon(model)))
         if not ok:
             continue
         spTree = slide.shapes.element
@@ -684,6 +796,7 @@ def _g_work(part, chunk):
             bare, mod, _bad = _g_step(part, slide, top, m2, op, done + [op], bad)
             if bare is not None:
                 part.add("states", ("grp", _g_canon(bare)))
+                part.add("group_model_states", hash(_m_canon(m2)))
                 part.add("group_max_nesting", len(mod) + 1)
             # restore the snapshot
             cur = top.element
@@ -704,13 +817,18 @@ def _g_replay(data):
     prev_bad = frozenset()
     for o in data["ops"]:
         op = (o[0], o[1], o[2], o[3], tuple(o[4]))
+        path = op[4]
+        after_resize = any("own" in _m_group(model, path[:k]) for k in range(len(path) + 1))
         modified = _m_apply(model, op)
         try:
             _g_apply(slide, top, op)
             bare = _bare(top.element)
         except Exception as e:  # noqa
-            return "adding %s raised %r" % (op[0], e)
-        bad, prev_bad = _g_check(top, bare, model, op, modified, prev_bad)
+            return "%s on group %r raised %r" % (op[0], path, e)
+        if op[0] == "resize":
+            prev_bad = _g_inconsistent(_g_obs(bare))
+            continue
+        bad, prev_bad = _g_check(top, bare, model, op, modified, prev_bad, after_resize)
         if bad and o is data["ops"][-1]:
             return "; ".join("%s: %s" % b for b in bad)
     return None
@@ -991,8 +1109,8 @@ def run(ctx):
     # ---- (2) groups ----------------------------------------------------------------------------------
     sets = _g_prefix_sets(thorough)
     hists = []
-    for length, kinds, geoms in sets:
-        hists.extend(h for h, _m in _g_prefixes(length, kinds, geoms))
+    for spec in sets:
+        hists.extend(h for h, _m in _g_prefixes(spec))
     if len(set(hists)) != len(hists):
         raise HarnessError("group prefix histories are not distinct")
     exp_leaf = _g_expected_leaf_ops(sets)
@@ -1011,24 +1129,40 @@ def run(ctx):
     g_tr = ctx.counters.get("transitions", 0) - before.get("transitions", 0)
     g_states = len(ctx.sets.get("states", ())) - nstates_before
     nest = ctx.sets.pop("group_max_nesting", set())
+    model_states = len(ctx.sets.pop("group_model_states", set()))
+    c = ctx.counters
     ctx.extra["groups"] = {
-        "states": g_states, "transitions": g_tr,
-        "traces_validated": ctx.counters.get("traces_validated_against_impl", 0) - before.get("traces_validated_against_impl", 0),
+        "states": g_states, "model_states": model_states, "transitions": g_tr,
+        "traces_validated": c.get("traces_validated_against_impl", 0) - before.get("traces_validated_against_impl", 0),
         "prefix_histories": len(hists), "leaf_operations": leaf, "prefix_replay_operations": exp_prefix,
-        "max_history_length": max(s[0] for s in sets) + 1, "max_nesting_depth": max(nest) if nest else 0,
+        "max_history_length": max(len(sp) for sp in sets) + 1, "max_nesting_depth": max(nest) if nest else 0,
         "alphabet_full": "%d kinds x %d geometries per group" % (len(KINDS), len(GEOMS_FULL)),
-        "prefix_sets": [{"prefix_length": s[0], "kinds": len(s[1]), "geometries": len(s[2])} for s in sets],
+        "prefix_sets": [_g_spec_text(sp) for sp in sets],
+        "resize_values(left,top,width,height)": [list(r) for r in RESIZES],
+        "resize_operations": c.get("group_resize_ops", 0),
+        "scaled_group_states_reached(off/ext != chOff/chExt)": c.get("group_scaled_states_reached", 0),
+        "additions_after_resize_on_path": c.get("group_additions_after_resize", 0),
+        "additions_inside_member_bbox_after_resize": c.get("group_additions_inside_bbox_after_resize", 0),
     }
     want_nest = 5 if thorough else 4
-    if not ctx.violations or all("raised" not in v[0] for v in ctx.violations):
+    clean = not ctx.violations
+    if clean or all("raised" not in v[0] for v in ctx.violations):
         if (max(nest) if nest else 0) != want_nest:
             raise HarnessError("group nesting depth reached %r != %d" % (max(nest) if nest else 0, want_nest))
-    # distinct histories <-> distinct trees: states = 1 (empty group) + distinct non-empty histories
-    exp_states = 1 + leaf + len({h[:k] for h in hists for k in range(1, len(h) + 1)} - set(
-        # prefixes that are themselves leaf histories of a shorter prefix set are already counted
-        _leaf_histories_of(sets, hists)))
-    if g_states != exp_states and not ctx.violations:
-        raise HarnessError("group states %d != expected distinct histories %d" % (g_states, exp_states))
+    # non-vacuity of the resize operation: the setters must have produced scaled groups, and additions
+    # that leave the member bounding box unchanged must have been made into them
+    if clean and (c.get("group_resize_not_as_modelled", 0) or not c.get("group_scaled_states_reached", 0)
+                  or not c.get("group_additions_inside_bbox_after_resize", 0)):
+        raise HarnessError("resize operation vacuous: %d resizes not as modelled, %d scaled states, %d inside-box "
+                           "additions after a resize" % (c.get("group_resize_not_as_modelled", 0),
+                                                         c.get("group_scaled_states_reached", 0),
+                                                         c.get("group_additions_inside_bbox_after_resize", 0)))
+    # the implementation distinguishes exactly the states the reference model distinguishes (a history is
+    # its tree; an addition into a resized group snaps it back, merging with the history without the resize)
+    if clean and g_states != model_states:
+        raise HarnessError("group states %d != reference-model states %d" % (g_states, model_states))
+    if clean and not (1 + leaf - c.get("group_additions_after_resize", 0) <= g_states <= 1 + leaf + exp_prefix):
+        raise HarnessError("group states %d outside [1 + leaf - merged, 1 + leaf + prefix states]" % g_states)
 
     # ---- (3) freeform --------------------------------------------------------------------------------
     before = dict(ctx.counters)
@@ -1047,19 +1181,6 @@ def run(ctx):
     }
     # the framework reads counters["states"] before sets["states"]: publish the total explicitly
     ctx.counters["states"] = len(ctx.sets.get("states", ())) + ff
-
-
-def _leaf_histories_of(sets, hists):
-    """Histories (length >= 1) that are reached as LEAF transitions: prefix + one full-alphabet op. A
-    replayed prefix state of length k is such a leaf exactly if its first k-1 operations form one of the
-    enumerated prefixes (its last op is always within the full alphabet)."""
-    hs = set(hists)
-    out = set()
-    for h in hists:
-        for k in range(1, len(h) + 1):
-            if h[:k - 1] in hs:
-                out.add(h[:k])
-    return out
 
 
 def replay(data):
